@@ -16,5 +16,6 @@ INVARIANT FaultReported
 INVARIANT FaultNeverStarted
 INVARIANT TeardownStopsAll
 INVARIANT ExternalAnswered
+INVARIANT ShutdownMetricsStored
 INVARIANT StopAcked
 CHECK_DEADLOCK FALSE
